@@ -1153,7 +1153,7 @@ func main() {
 	}
 	nslow, nnest := 0, 0
 	if focus == "C05" {
-		nslow, nnest = r.N(12, 120), r.N(16, 400)
+		nslow, nnest = r.N(24, 240), r.N(16, 400)
 	}
 	nwild := 0
 	if focus == "C05" {
